@@ -290,7 +290,8 @@ fn median_case(n: usize, t: &str, vals: &[String], acc_every: bool) -> Case {
         c.push("acc 1 max".into());
     }
     for v in vals {
-        c.push(format!("f 1 {}", v));
+        // "reset": the filter starts over (window empty, accessors report nothing)
+        c.push(if v == "reset" { "reset 1".to_string() } else { format!("f 1 {}", v) });
         if acc_every {
             c.push("acc 1 min".into());
             c.push("acc 1 med".into());
@@ -316,7 +317,11 @@ pub fn gen_median(rng: &mut Rng, tier: &Tier, acc_every: bool) -> Vec<Case> {
     for &n in WIDTHS.iter() {
         for _ in 0..tier.n(25, 400) {
             let len = rng.range(1, (6 * n as i64).min(60)) as usize;
-            let vals: Vec<String> = int_seq(rng, len).iter().map(|x| x.to_string()).collect();
+            let mut vals: Vec<String> = int_seq(rng, len).iter().map(|x| x.to_string()).collect();
+            if rng.chance(1, 4) {
+                let at = rng.range(0, vals.len() as i64) as usize;
+                vals.insert(at, "reset".to_string());
+            }
             cases.push(median_case(n, "", &vals, acc_every));
         }
         // (c) partial order: f64 with NaN
@@ -356,6 +361,15 @@ pub fn gen_mean(rng: &mut Rng, tier: &Tier) -> Vec<Case> {
                     c.push("guts 1 taps".into());
                     c.push("guts 1 weight".into());
                 }
+            }
+            if rng.chance(1, 4) {
+                // a reset filter is a moving average again: the window starts over
+                c.push("reset 1".into());
+                let len2 = rng.range(1, 3 * n as i64 + 2) as usize;
+                for v in rat_seq(rng, len2) {
+                    c.push(format!("f 1 {}", v));
+                }
+                c.push("guts 1 taps".into());
             }
             cases.push(c);
         }
@@ -623,6 +637,21 @@ pub fn gen_diffint(rng: &mut Rng, tier: &Tier) -> Vec<Case> {
             c.push(format!("compose diff-int 4 n={} xn={}", vals.len(), vals[vals.len() - 1]));
             cases.push(c);
         }
+    }
+    // after a reset the first difference / the running sum start over
+    for _ in 0..tier.n(60, 600) {
+        let mut c = vec!["new 1 differentiate".to_string(), "new 2 integrate".to_string()];
+        for round in 0..rng.range(2, 3) {
+            if round > 0 {
+                c.push("reset 1".into());
+                c.push("reset 2".into());
+            }
+            for v in rat_seq_in(rng, 1, 5) {
+                c.push(format!("f 1 {}", v));
+                c.push(format!("f 2 {}", v));
+            }
+        }
+        cases.push(c);
     }
     cases
 }
